@@ -4,7 +4,9 @@
 (* Every terminal behaviour is printed ("VEC <calls>") and replayed on the    *)
 (* real cbor.Encoder; the recorded run is then judged by Trace_CborEnc.       *)
 EXTENDS CborMachines, TLC, Json
-CONSTANTS MaxCalls, U1, U2, U3      \* universe name per call position: "full" | "medium" | "small"
+CONSTANTS MaxCalls, U1, U2, U3,     \* universe name per call position: "full" | "medium" | "small" | "refused"
+          GoOn                      \* TRUE: the caller keeps using the SAME encoder after a refused call (a refusal is an
+                                    \* answer, not the end of the encoder: a server drops that item and encodes the next)
 VARIABLES out, hist, errd
 vars == <<out, hist, errd>>
 
@@ -46,6 +48,9 @@ Universe(name) ==
   \cup { C("arr", a, FALSE, <<>>, FALSE, <<>>) : a \in { U64(0), U64(1), U64(23), U64(24), U64(255), U64(256), U64(65535), U64(65536), U64(2147483647) } }
   \cup { C("bool", U64Zero, FALSE, <<>>, b, <<>>) : b \in BOOLEAN }
   \cup MapCalls(1..7, 3) \cup MapCalls({3, 8}, 2) \cup MapCalls({9, 10}, 2) \cup MapCalls({11, 12}, 2) \cup MapCalls({7, 3, 8}, 3)
+  ELSE IF name = "refused" THEN      \* calls the encoder must refuse
+       { C("text", U64Zero, FALSE, s, FALSE, <<>>) : s \in {<<128>>, <<97,255>>} }
+  \cup { c \in MapCalls({1, 3, 4}, 3) \cup MapCalls({3, 8}, 3) : HasDupKey(c.es) }
   ELSE IF name = "medium" THEN
        { C("uint", a, FALSE, <<>>, FALSE, <<>>) : a \in Base }
   \cup { C("int", a, TRUE, <<>>, FALSE, <<>>) : a \in { x \in Base : x[1] < 128 } }
@@ -69,9 +74,9 @@ Call(c) ==
   /\ hist' = Append(hist, c)
   /\ IF EncSpecErr(c) THEN out' = out /\ errd' = TRUE        \* idealised: nothing written on refusal
      ELSE out' = out \o EncSpecOut(c) /\ errd' = FALSE
-  /\ IF Len(hist') = MaxCalls \/ EncSpecErr(c) THEN PrintT("VEC " \o ToJson(hist')) ELSE TRUE
+  /\ IF Len(hist') = MaxCalls \/ (EncSpecErr(c) /\ ~GoOn) THEN PrintT("VEC " \o ToJson(hist')) ELSE TRUE
 
-Next == ~errd /\ Len(hist) < MaxCalls /\ \E c \in Universe(UName(Len(hist) + 1)) : Call(c)
+Next == (GoOn \/ ~errd) /\ Len(hist) < MaxCalls /\ \E c \in Universe(UName(Len(hist) + 1)) : Call(c)
 Spec == Init /\ [][Next]_vars
 
 RECURSIVE HistTokens(_)
